@@ -7,7 +7,7 @@ import core
 import gen
 
 PID = 'C08'
-MODULES = ['FFVerif.Proofs.C08']
+MODULES = ['FFVerif.Proofs.C08', 'FFVerif.Proofs.VecGen']
 
 
 def enc(pairs):
@@ -163,6 +163,8 @@ def run(tier, seed):
     res = core.Result(PID, tier, seed)
     res.rule = ('random S-N data sets (2-6 points, falling log-linear curve with scatter, some exact powers of ten), fatigue limits, '
                 'cycle tables with rows below / exactly at / one ulp to 1e-6 off / above the limit, 35% with repeated stress levels; distinct by case')
+    import translate_vec
+    translate_vec.regenerate(res)      # Gen/VecFormulas.lean from the current source (numpy vector expressions)
     core.prove(res, PID, MODULES, clean=(tier == 'thorough'))
     n = 300 if tier == 'quick' else 10000
     explore(res, random.Random(seed), n)
